@@ -107,9 +107,13 @@ def build(ctx, tier="quick"):
     # ---- CREATE [BIGFILE|SMALLFILE] [TEMPORARY] TABLESPACE n
     big = lm.custom("BIGFILE", ["BIGFILE", "SMALLFILE"], "WORD")
     tmp = lm.custom("TEMPORARY", ["TEMPORARY", "temporary", "Temporary"], "WORD")
+    # ... also a tablespace that is merely CALLED like one of the optional words (the flags come from the words before TABLESPACE,
+    # the name is whatever follows it)
+    odd = lm.custom("name-like-modifier", ["temporary", "Temporary", "bigfile", "smallfile", "Bigfile"], "WORD")
     for pre in ([], [(big, "tskind")], [(tmp, "temp")], [(big, "tskind"), (tmp, "temp")]):
-        t0 = s.words(c, "ent:TABLESPACE", pre + [("KW", "TABLESPACE"), (nm, "name")])
-        s.eps(t0, fin)
+        for name in (nm, odd):
+            t0 = s.words(c, "ent:TABLESPACE", pre + [("KW", "TABLESPACE"), (name, "name")])
+            s.eps(t0, fin)
     # ---- DROP TABLE [s.]n : reported as a (column-less) table entry, which must still have the documented shape
     d0 = s.words(s.start, "ent:DROP", [("KW", "DROP"), ("KW", "TABLE")])
     d1 = named(d0, "ent:DROP")
